@@ -10,7 +10,7 @@ Theorem C09_depth_sequence :
   forall search_depth asp_fuel fuel root_moves stop0 roots brk tbrk best ev,
     go search_depth asp_fuel fuel root_moves stop0 roots brk tbrk = Some (best, ev) ->
     exists k, info_depths ev = zseq k /\ Z.of_nat k <= Z.max search_depth 1 /\
-              Forall (fun d => d <= Z.max search_depth 1) (call_depths ev).
+              Forall (fun d => 1 <= d <= Z.max search_depth 1) (call_depths ev).
 Proof. exact go_depth_sequence. Qed.
 Print Assumptions C09_depth_sequence.
 
@@ -20,7 +20,7 @@ Theorem C09_go_depth :
     1 <= d ->
     go (search_depth_of false d movetime timeleft) asp_fuel fuel root_moves stop0 roots brk tbrk = Some (best, ev) ->
     exists k, info_depths ev = zseq k /\ Z.of_nat k <= d /\ Z.of_nat k <= MAX_DEPTH /\
-              Forall (fun x => x <= d /\ x <= MAX_DEPTH) (call_depths ev).
+              Forall (fun x => 1 <= x <= d /\ x <= MAX_DEPTH) (call_depths ev).
 Proof.
   intros d mt tl af fu rm s0 roots brk tbrk best ev Hd H.
   rewrite (search_depth_of_depth d mt tl Hd) in H.
